@@ -26,7 +26,9 @@ pub proof fn lemma_no_ghost_output<C: ContentAddrStore>(s: UnsealedState<C>, txx
         assert(c0.contains_key(id) && rel[id] == c0[id]);
         let a = rel[id].coin_data.covhash;
         assert(a == spec_coin_destroy());
-        assert(script_approves(spec_covenants_map(txx[t3]), a, txx[t3], env_of(txx[t3], rel, k, spec_last_header(s))));
+        lemma_first_occ_exists(txx[t3], rel, k);
+        let k0 = choose|k0: int| 0 <= k0 <= k && rel[txx[t3].inputs@[k0]].coin_data.covhash == rel[txx[t3].inputs@[k]].coin_data.covhash && #[trigger] first_occ(txx[t3], rel, k0);
+        assert(script_approves(spec_covenants_map(txx[t3]), a, txx[t3], env_of(txx[t3], rel, k0, spec_last_header(s))));
         assert(spec_covenants_map(txx[t3]).contains_key(a));
         assert(false);
     }
